@@ -219,14 +219,14 @@ theorem C39_project_partial (cfg : Cfg) (ver : Ver) (e : Endian) (tr tw : Ty) (v
     | str => cases xr <;> simp [evolves] at hev
     | enum _ _ _ => cases xr <;> simp [evolves] at hev
     | wstr => cases xr <;> simp [evolves] at hev
-    | union _ _ => cases xr <;> simp [evolves] at hev
+    | union _ _ _ => cases xr <;> simp [evolves] at hev
     | seq _ => cases xr <;> simp [evolves] at hev
     | arr _ _ => cases xr <;> simp [evolves] at hev
   | prim _ => simp [evolves] at hev
   | str => simp [evolves] at hev
   | enum _ _ _ => simp [evolves] at hev
   | wstr => simp [evolves] at hev
-  | union _ _ => simp [evolves] at hev
+  | union _ _ _ => simp [evolves] at hev
   | seq _ => simp [evolves] at hev
   | arr _ _ => simp [evolves] at hev
 
@@ -273,14 +273,14 @@ theorem C39_agrees (tr tw : Ty) (hev : evolves tr tw = true) : assignable (tyK t
       | str => cases xr <;> simp [evolves] at hev
       | enum _ _ _ => cases xr <;> simp [evolves] at hev
       | wstr => cases xr <;> simp [evolves] at hev
-      | union _ _ => cases xr <;> simp [evolves] at hev
+      | union _ _ _ => cases xr <;> simp [evolves] at hev
       | seq _ => cases xr <;> simp [evolves] at hev
       | arr _ _ => cases xr <;> simp [evolves] at hev
     | prim _ => simp [evolves] at hev
     | str => simp [evolves] at hev
     | enum _ _ _ => simp [evolves] at hev
     | wstr => simp [evolves] at hev
-    | union _ _ => simp [evolves] at hev
+    | union _ _ _ => simp [evolves] at hev
     | seq _ => simp [evolves] at hev
     | arr _ _ => simp [evolves] at hev
 
